@@ -296,7 +296,7 @@ def rand_nonce(rnd):
 
 def gen_cases(seed, tier, shard, nshards):
     rnd = random.Random(seed)
-    scale = 1 if tier == 'quick' else 14
+    scale = 1 if tier == 'quick' else 150
     cases = []
 
     def add(kind, line, expect, s, nt=True):
@@ -423,14 +423,35 @@ def short(s):
     return s if len(s) <= 80 else s[:64] + '...(%d hex digits)' % len(s)
 
 
-def judge_for(variant, answers):
+def lib_part(ans):
+    """The library's bytes in an answer (AES lines also carry the reference)."""
+    return ans.split(' ', 1)[0]
+
+
+def judge_for(variant, base, diffs, zbox):
+    """Judge of one variant.  `base` (idx -> library answer) is filled by the
+    first variant and compared by the later ones; disagreements go to
+    `diffs` (idx -> {answer: [variant names]})."""
     exp = variant['expect']
+    first = not base
 
     def judge(c, ans):
-        answers[c['idx']] = ans
         kind = c['kind']
         if kind == 'counters':
+            zbox.append(ans)
             return None
+        la = lib_part(ans)
+        if first:
+            base[c['idx']] = (la, variant['name'])
+        else:
+            b = base.get(c['idx'])
+            if b is None:
+                base[c['idx']] = (la, variant['name'])
+            elif b[0] != la:
+                d = diffs.setdefault(c['idx'], {b[0]: [b[1]]})
+                d.setdefault(la, []).append(variant['name'])
+            elif c['idx'] in diffs:
+                diffs[c['idx']][la].append(variant['name'])
         impl = impl_of(kind, exp)
         if kind in ('aes', 'ctr'):
             t = ans.split()
@@ -459,9 +480,9 @@ def run_variants(variants, cases, timeout=1200):
     """Run the same lines through every variant.  -> shard result."""
     res = {'evals': 0, 'sigs': set(), 'alarms': [], 'counters': {}, 'disabled': [],
            'samples': [c['line'][:200] for c in cases if len(c['line']) > 60][7::97][:3]}
-    allans = []
+    base, diffs = {}, {}
     for v in variants:
-        answers = {}
+        zbox = []
         mine = []
         for i, c in enumerate(cases):
             d = dict(c)
@@ -471,13 +492,12 @@ def run_variants(variants, cases, timeout=1200):
             mine.append(d)
         mine.append({'kind': 'counters', 'line': 'Z', 'expect': '', 'sig': 0, 'nt': False,
                      'idx': len(cases), 'meta': {'variant': v['name']}})
-        r = core.line_shard(v['exe'], mine, judge=judge_for(v, answers), timeout=timeout)
-        res['evals'] += r['evals'] - (1 if len(cases) in answers else 0)
+        r = core.line_shard(v['exe'], mine, judge=judge_for(v, base, diffs, zbox), timeout=timeout)
+        res['evals'] += r['evals'] - len(zbox)
         res['sigs'] |= r['sigs']
         res['alarms'] += r['alarms']
-        z = answers.get(len(cases))
         cnt = res['counters'].setdefault(v['name'], {'procs': 0, 'aligns': 0, 'intr': set()})
-        if z is not None:
+        for z in zbox:
             d = parse_z(z)
             cnt['procs'] += 1
             for k in COUNTERS:
@@ -486,23 +506,18 @@ def run_variants(variants, cases, timeout=1200):
             cnt['intr'].add(d.get('intr'))
             if d.get('disabled', '-') != '-':
                 res['disabled'].append((v['name'], d['disabled']))
-        allans.append(answers)
     # line by line across variants (library output only)
-    for i, c in enumerate(cases):
-        groups = {}
-        for v, answers in zip(variants, allans):
-            a = answers.get(i)
-            if a is None:
-                continue
-            groups.setdefault(a.split()[0] if a else '', []).append(v['name'])
-        if len(groups) > 1:
-            g = sorted(groups.items(), key=lambda kv: -len(kv[1]))
-            w = '; '.join('%s from %s' % (short(a), ', '.join(names[:6]) +
-                                          (' (+%d more)' % (len(names) - 6) if len(names) > 6 else ''))
-                          for a, names in g[:4])
-            res['alarms'].append(('variant-diff:' + c['kind'],
-                                  {'line': c['line'], 'kind': c['kind'], 'expect': c['expect'],
-                                   'meta': {'variant': g[-1][1][0]}}, w))
+    for i in sorted(diffs):
+        c = cases[i]
+        # variants that agreed silently with the first answer are not listed
+        g = sorted(diffs[i].items(), key=lambda kv: -len(kv[1]))
+        w = '; '.join('%s from %s' % (short(a), ', '.join(names[:6]) +
+                                      (' (+%d more)' % (len(names) - 6) if len(names) > 6 else ''))
+                      for a, names in g[:4])
+        res['alarms'].append(('variant-diff:' + c['kind'],
+                              {'line': c['line'], 'kind': c['kind'], 'expect': c['expect'],
+                               'meta': {'variant': g[-1][1][0]}},
+                              'variants disagree: ' + w))
     return res
 
 
